@@ -211,15 +211,78 @@ def c01_kani_jobs(tier):
 
 def c01(res, tier, seed):
     run_kani_jobs(res, c01_kani_jobs(tier))
+    # layer S: no MIR assert / unreachable edge of AisParser::parse reachable from any parser state (all three configurations)
+    msq, ql, rels = m_setup(res, ALL, seed)
+    for c, rel in rels.items():
+        msq.q_no_panic(res, rel, ql, k_bmc=3)
+    # layer T: no panic edge in the sentence parser for any line
+    mt, cxs = mt_setup(res, ("std", "none") if tier == "quick" else ALL, tier, seed)
+    for cx in cxs:
+        mt.q_no_panic(cx)
+        mt.run_queries(cx, timeout_s=300 if tier == "quick" else 1200)
     res.assumptions += ["payload layer: per message type the exact specification length (quick) and a symbolic length 0..=spec max + 2 bytes (thorough; "
                         "quick for the cheap types), all bits symbolic including the type bits", SKIPTEXT_NOTE +
                         "; the real text decoder is run on safety texts of 4 and 21 characters (21 > the no-allocator capacity)",
                         "unarmor: n <= 16 characters (thorough 40), fill 0..=5",
-                        "the dispatcher messages::parse is not run under Kani (21-variant result type, > 19 min); its own control flow is covered by C09's MIR query"]
-    return {"functions_encoded": PAYLOAD_FN + ["messages::unarmor", "nom_noalloc::count / many_m_n (no-alloc)"],
-            "bounds": {"payload": "spec length (quick) / symbolic length up to spec max + 2 (thorough)", "unarmor_n": 16 if tier == "quick" else 40, "unwind": 7},
-            "technique": "Kani/CBMC built-in checks (arithmetic overflow, shift, index/slice bounds, unwrap/expect/unreachable/assert panics) over arbitrary input",
-            "trusted": KANI_TRUSTED}
+                        "the dispatcher messages::parse is not run under Kani (21-variant result type, > 19 min); its own control flow is covered by C09's MIR query",
+                        "state layer (engine M): every MIR assert (overflow checks) and unreachable terminator of AisParser::parse and its callees, from an arbitrary parser state",
+                        "text layer (engine M): panics inside nom / core (slice indexing in hex_u32, u8::from_str) are not visible to the semantics table; "
+                        "lines of at most %d bytes; termination: every encoded body is loop-free and the table's scans are bounded by the line length" % MT_N[tier],
+                        "decode in {true,false}: symbolic in the state layer; the payload layer is what decode=true adds"]
+    meta = mt_meta(tier)
+    meta["functions_encoded"] = PAYLOAD_FN + ["messages::unarmor", "nom_noalloc::count / many_m_n (no-alloc)"] + meta["functions_encoded"]
+    meta["bounds"].update({"payload": "spec length (quick) / symbolic length up to spec max + 2 (thorough)", "unarmor_n": 16 if tier == "quick" else 40, "unwind": 7})
+    meta["technique"] = "Kani/CBMC built-in checks over arbitrary payloads + engine M: reachability of panic edges in the MIR of the state machine and the sentence parser"
+    meta["trusted"] = KANI_TRUSTED + meta["trusted"]
+    return meta
+
+
+def c18(res, tier, seed):
+    # (i) the same configuration-independent oracle in the three builds: verdicts must agree harness by harness
+    names = ["c03_unarmor_n16", "c04_t01", "c04_t07_n4", "c04_t15_160", "c04_t20_n4", "c11_t27", "c12_t24", "c16_t18", "c14_t07", "c14_t15",
+             "c15_t06_p009", "c13_t14_k04"]
+    if tier == "thorough":
+        names += C04_PLAIN + C04_TEXT + ["c14_t20", "c14_t16", "c14_t05", "c12_t05", "c11_t05", "c10_t17"]
+    names = sorted(set(names))
+    jobs = []
+    for h in names:
+        jobs += K(h, ALL, timeout=900 if tier == "quick" else 2700)
+    # capacity edges of the no-allocator build: must be errors, never panics or truncation
+    for h in ("c15_t06_p119", "c15_t06_p120", "c15_t08_p120", "c01_text_t14_k21", "c01_text_t12_k21"):
+        jobs += K(h, ("none",), timeout=900)
+    results = run_kani_jobs(res, jobs)
+    by = {}
+    for r in results:
+        by.setdefault(r["harness"], {})[r["cfg"]] = r["outcome"]
+    res.extra["verdicts_per_configuration"] = by
+    for h, d in by.items():
+        if h in names and len(set(d.values())) > 1 and not any(h in v["what"] for v in res.violations):
+            res.inconclusive.append("%s: verdicts differ between configurations: %s" % (h, d))
+    # (ii) state machine: same state + same line => same outcome, next state and fields (within the capacity)
+    msq, ql, rels = m_setup(res, ALL, seed)
+    if "std" in rels:
+        for c in ("alloc", "none"):
+            if c in rels:
+                msq.q_cfg_miter(res, rels["std"], rels[c], ql)
+    if "none" in rels:
+        r, m, st = msq.q_capacity(res, rels["none"], ql)
+        if r == "sat":
+            res.norepro.append("capacity-overflow[none]: over-capacity continuation not rejected / leaves a trace in the encoding (see C17 for the replayable history)")
+        elif r != "unsat":
+            # constructing > 384 payload bytes is slow for the sequence solver: decide on the capacity-scaled relation
+            w = msq.witness_relation(rels["none"])
+            r2, m2, st2 = msq.q_capacity_scaled(res, w, ql)
+            if r2 != "unsat":
+                res.inconclusive.append("capacity-overflow[none]: %s / scaled %s" % (r, r2))
+    res.assumptions += ["equivalence = every K harness listed runs against the same configuration-independent oracle in std, alloc and no-alloc (agreement by transitivity inside the bounds) "
+                        "+ engine M miters of the fragment state machine's transition relation, configuration against configuration",
+                        "error category = Nmea vs Checksum (+ decode / form / sequencing origin); message texts differ by design and are not compared",
+                        "capacity edges (no-alloc): 119/120 binary bytes, 20/21 text characters, 384 reassembled bytes - each must be an error, not a panic or a truncation"]
+    meta = m_meta(tier)
+    meta["functions_encoded"] = PAYLOAD_FN + meta["functions_encoded"]
+    meta["technique"] = "the same Kani harnesses in three build configurations + z3 miters between the MIR-derived transition relations of the three builds"
+    meta["trusted"] = KANI_TRUSTED + meta["trusted"]
+    return meta
 
 
 c09k = simple(C09_PLAIN, C09_TEXT, PAYLOAD_FN + ["parsers::message_type"], {"payload": "spec length per type, all bits symbolic incl. the type bits", "unwind": 6},
@@ -240,7 +303,7 @@ def m_setup(res, cfgs, seed):
         try:
             rels[c] = msq.relation(c)
         except Exception as e:   # Unsupported MIR / dump failure: inconclusive, never a pass
-            res.inconclusive.append("engine M could not encode AisParser::parse [%s]: %s" % (c, e))
+            res.inconclusive.append("engine M could not encode AisParser::parse [%s]: %s" % (c, str(e)[:400]))
             continue
         msq.relation_evidence(res, rels[c])
         msq.sanity_paths_exhaustive(res, rels[c], ql)
@@ -316,6 +379,89 @@ def c09(res, tier, seed):
             "trusted": M_TRUSTED + KANI_TRUSTED}
 
 
+MT_FUNCS = ["parse_nmea_sentence", "parse_ais_sentence", "parse_u8_digit", "parse_numeric_string", "the two verify closures", "From<&[u8]> for TalkerId / AisReportType",
+            "AisParser::check_checksum incl. its fold closure"]
+MT_TRUSTED = ["nom semantics table lib/mir/textlayer.py (take, tag, take_until, digit1, hex_u32, anychar, opt, alt, delimited, terminated, peek, all_consuming, map, map_res, verify; "
+              "u8::from_str and str::from_utf8 on digit runs; Iterator::fold = closure applied left to right) - validated by the corpus translator validation, "
+              "by the native replay of every model and by the repository's sentence tests",
+              "messages::message_type(d) = d[0] >> 2, Err on empty input (proved by the Kani leaf c09_message_type_leaf)"]
+
+
+MT_N = {"quick": 32, "thorough": 48}
+
+
+def mt_setup(res, cfgs, tier, seed):
+    import mt, msq
+    out = []
+    N = MT_N[tier]
+    for c in cfgs:
+        try:
+            base = msq.relation(c)
+            rel = mt.build(c, N, mir_path=base.mir_path)
+        except Exception as e:
+            res.inconclusive.append("engine M could not encode the sentence parser [%s]: %s" % (c, str(e)[:400]))
+            continue
+        ref = mt.Ref(rel.line)
+        res.extra.setdefault("text_layer", {})[c] = dict(rel.stats, functions_encoded_from_mir=rel.functions_encoded, callees_summarised=len(rel.summarised))
+        res.states += rel.stats["blocks_executed"]
+        res.transitions += rel.stats["paths"]
+        mt.translator_validation(res, rel, ref, seed)
+        out.append(mt.Ctx(res, rel, ref))
+    return mt, out
+
+
+def mt_meta(tier):
+    N = MT_N[tier]
+    return {"functions_encoded": MT_FUNCS + M_FUNCS, "bounds": {"line_bytes": "all byte strings of length 0..=%d, every byte symbolic" % N},
+            "technique": "symbolic execution of the sentence parser's MIR (nom applications by a semantics table) into QF_ABV formulas over a fully symbolic line; "
+                         "z3 queries against a reference grammar / field extractor / checksum rule written from the property text; every model replayed natively",
+            "trusted": M_TRUSTED + MT_TRUSTED}
+
+
+def c02(res, tier, seed):
+    mt, cxs = mt_setup(res, ("std",) if tier == "quick" else ALL, tier, seed)
+    for cx in cxs:
+        mt.q_gate(cx)
+        mt.run_queries(cx, timeout_s=500 if tier == "quick" else 2400)
+    msq, ql, rels = m_setup(res, ("std", "none") if tier == "quick" else ALL, seed)
+    for c, rel in rels.items():
+        msq.q_checksum_gate(res, rel, ql)
+    res.assumptions += ["lines of at most N bytes (see bounds); the S-layer queries cover any parser state"]
+    return mt_meta(tier)
+
+
+def c08(res, tier, seed):
+    mt, cxs = mt_setup(res, ("std",) if tier == "quick" else ALL, tier, seed)
+    for cx in cxs:
+        mt.q_shapes(cx)
+        mt.q_postconditions(cx)
+        mt.q_no_panic(cx)
+        mt.run_queries(cx, timeout_s=500 if tier == "quick" else 2400)
+    res.assumptions += ["lines with a '*' inside the address / channel / payload fields are judged by C02 (first-'*' rule), C08's two queries are neutral on them"]
+    return mt_meta(tier)
+
+
+def c07(res, tier, seed):
+    mt, cxs = mt_setup(res, ("std",) if tier == "quick" else ALL, tier, seed)
+    for cx in cxs:
+        mt.q_fields(cx)
+        mt.run_queries(cx, timeout_s=500 if tier == "quick" else 2400)
+    msq, ql, rels = m_setup(res, ("std", "none") if tier == "quick" else ALL, seed)
+    for c, rel in rels.items():
+        msq.q_decode_flag(res, rel, ql)
+    return mt_meta(tier)
+
+
+def c19(res, tier, seed):
+    from common import load_known_findings
+    known = next((e for e in load_known_findings().get("known", []) if e["property"] == "C19"), None)
+    mt, cxs = mt_setup(res, ("std",) if tier == "quick" else ALL, tier, seed)
+    for cx in cxs:
+        mt.q_message_type(cx, known)
+    run_kani_jobs(res, K("c09_message_type_leaf", ("std",), timeout=600))
+    return mt_meta(tier)
+
+
 def c20(res, tier, seed):
     import mbin
     mbin.run(res, nlines=2 if tier == "quick" else 3)
@@ -330,4 +476,4 @@ def c20(res, tier, seed):
             "trusted": M_TRUSTED}
 
 
-CHECKS = {"C03": c03, "C04": c04, "C10": c10, "C11": c11, "C12": c12, "C16": c16, "C14": c14, "C05": c05, "C06": c06, "C17": c17, "C01": c01, "C13": c13, "C15": c15, "C09": c09, "C20": c20}
+CHECKS = {"C03": c03, "C04": c04, "C10": c10, "C11": c11, "C12": c12, "C16": c16, "C14": c14, "C05": c05, "C06": c06, "C17": c17, "C01": c01, "C13": c13, "C15": c15, "C09": c09, "C20": c20, "C02": c02, "C07": c07, "C08": c08, "C19": c19, "C18": c18}
